@@ -13,8 +13,8 @@
    first block), proposer is a validator, time = weighted median and later than the last block
    (or genesis time), evidence within the byte limit.  VerifyCommit is TM.C07's model. *)
 From Coq Require Import List ZArith NArith Bool Permutation.
-From TM Require Import Generated.Consts C07.Model C07.Proofs C06.Model C06.PExact C06.Proofs
-     C06.PMedian C06.PSizes.
+From TM Require Import Common.Hex Generated.Consts C07.Model C07.Proofs C06.Model C06.PExact
+     C06.Proofs C06.PMedian C06.PSizes C06.PResults.
 Import ListNotations.
 Open Scope Z_scope.
 
@@ -313,6 +313,65 @@ Theorem C06_update_state_function :
 Proof. exact update_state_header_irrelevant. Qed.
 Print Assumptions C06_update_state_function.
 
+(* With a parameter update in EndBlock (complements C06_update_state_shift, which covers the case
+   without one): the next parameters are UpdateConsensusParams of the old ones and passed
+   ValidateConsensusParams, LastHeightConsensusParamsChanged is the next height, the application
+   version follows the parameters; AppHash is left empty in every case. *)
+Theorem C06_update_state_params :
+  forall (results : Type) (Hr : results -> hv)
+         (vs_update : list validator -> list validator -> option (list validator))
+         (st : state) (id : bid) (h : header) (res : results) (ups : list validator)
+         (pu : option param_update) (s' : state),
+    update_state Hr vs_update st id h res ups pu = US_ok s' ->
+    st_app_hash s' = hv_empty /\
+    forall u, pu = Some u ->
+      st_params s' = update_params (st_params st) u /\ validate_params (st_params s') = 0 /\
+      st_lhpc s' = h_height h + 1 /\ st_vapp s' = p_app_version (st_params s').
+Proof. exact update_state_params. Qed.
+Print Assumptions C06_update_state_params.
+
+(* ---- what enters LastResultsHash -------------------------------------------------------- *)
+
+(* [results_hash root rs] transcribes ABCIResponsesResultsHash: the Merkle root ([root], arbitrary)
+   of the marshalled deterministicResponseDeliverTx(r) of every response.  Its input is a function
+   of (Code, Data, GasWanted, GasUsed) of the responses only: Log, Info, Events and Codespace — which
+   applications may fill differently on different nodes — do not enter it. *)
+Theorem C06_results_hash_fields :
+  forall (root : list bytes -> hv) (rs : list dresp),
+    results_hash root rs = root (map enc_det (map det_fields rs)).
+Proof. exact results_hash_fields. Qed.
+Print Assumptions C06_results_hash_fields.
+
+Theorem C06_results_hash_ignores_nondeterministic :
+  forall (root : list bytes -> hv) (rs rs' : list dresp),
+    map det_fields rs = map det_fields rs' -> results_hash root rs = results_hash root rs'.
+Proof. exact results_hash_ignores_nondet. Qed.
+Print Assumptions C06_results_hash_ignores_nondeterministic.
+
+(* hence two nodes whose applications agree on the deterministic fields compute the same next
+   state from the same block *)
+Theorem C06_update_state_ignores_nondeterministic :
+  forall (root : list bytes -> hv)
+         (vs_update : list validator -> list validator -> option (list validator))
+         (st : state) (id : bid) (h : header) (rs rs' : list dresp) (ups : list validator)
+         (pu : option param_update),
+    map det_fields rs = map det_fields rs' ->
+    update_state (results_hash root) vs_update st id h rs ups pu =
+    update_state (results_hash root) vs_update st id h rs' ups pu.
+Proof. exact update_state_ignores_nondet. Qed.
+Print Assumptions C06_update_state_ignores_nondeterministic.
+
+(* Conversely every deterministic field is bound by the hash: for values of the Go types (Code
+   uint32, GasWanted/GasUsed int64) equal hashes mean equal (Code, Data, GasWanted, GasUsed) for
+   every transaction, or a collision of the Merkle root is exhibited. *)
+Theorem C06_results_hash_binds_fields :
+  forall (root : list bytes -> hv) (rs rs' : list dresp),
+    Forall det_in_range (map det_fields rs) -> Forall det_in_range (map det_fields rs') ->
+    results_hash root rs = results_hash root rs' ->
+    map det_fields rs = map det_fields rs' \/ exists x y, x <> y /\ root x = root y.
+Proof. exact results_hash_binds_fields. Qed.
+Print Assumptions C06_results_hash_binds_fields.
+
 (* ---- non-vacuity: a concrete chain state, a commit of three validators, a built block ----- *)
 
 Definition ex_Hc (l : list (slot isig)) : hv := {| hv_id := 100 + Z.of_nat (length l); hv_len := 32 |}.
@@ -392,4 +451,24 @@ Proof.
   split; [vm_compute; reflexivity|]. split; [vm_compute; reflexivity|]. split.
   - repeat constructor; cbn; discriminate.
   - repeat constructor.
+Qed.
+
+(* two responses that differ in Log, Info, Events and Codespace only have the same leaf (the bytes
+   are those of ResponseDeliverTx{Code:1, Data:ab, GasWanted:-1, GasUsed:300}.Marshal()); changing
+   Code changes it *)
+Definition ex_resp (code : Z) (log : bytes) (evs : list bytes) : dresp :=
+  {| r_code := code; r_data := [171%N]; r_log := log; r_info := log; r_gas_wanted := -1;
+     r_gas_used := 300; r_events := evs; r_codespace := log |}.
+Example C06_results_nonvacuous :
+  results_leaves [ex_resp 1 [] []] = results_leaves [ex_resp 1 [108; 111; 103]%N [[10; 1; 97]%N]] /\
+  results_leaves [ex_resp 1 [] []]
+    = [[8; 1; 18; 1; 171; 40; 255; 255; 255; 255; 255; 255; 255; 255; 255; 1; 48; 172; 2]%N] /\
+  enc_response (ex_resp 1 [108; 111; 103]%N [[10; 1; 97]%N])
+    <> enc_response (deterministic_response (ex_resp 1 [108; 111; 103]%N [[10; 1; 97]%N])) /\
+  results_leaves [ex_resp 1 [] []] <> results_leaves [ex_resp 2 [] []] /\
+  det_in_range (det_fields (ex_resp 1 [] [])).
+Proof.
+  split; [vm_compute; reflexivity|]. split; [vm_compute; reflexivity|].
+  split; [vm_compute; discriminate|]. split; [vm_compute; discriminate|].
+  vm_compute. repeat split; discriminate.
 Qed.
